@@ -13,6 +13,7 @@ import (
 	"errors"
 	"fmt"
 	"runtime"
+	"runtime/debug"
 	"sort"
 	"strings"
 
@@ -24,6 +25,22 @@ import (
 	blog "github.com/bio-routing/bio-rd/util/log"
 	"github.com/bio-routing/bio-rd/zzverif/vsched"
 )
+
+// zvExec is vsched.Exec with the garbage collector switched off for the duration
+// of the execution (defensive). vsched models channels in a side table keyed by
+// the channel's address; when that table did not keep the channels alive, a
+// channel dropped by the code under test (netIfa replaces its closed `done`
+// channel on restart, disposed neighbours drop theirs) could be freed and a
+// later make(chan) be given the same address, inheriting the stale model state
+// (closed=true) at a moment that depended on GC timing: about 1 in 800 IS-IS
+// executions reported a violation that did not reproduce. The engine now pins
+// the channels; without collection no address can be reused within an
+// execution in any case. Garbage is collected between executions.
+func zvExec(cfg vsched.Config, body func()) *vsched.Execution {
+	old := debug.SetGCPercent(-1)
+	defer debug.SetGCPercent(old)
+	return vsched.Exec(cfg, body)
+}
 
 // ---------------------------------------------------------------------------
 // fake ethernet interface
@@ -108,8 +125,8 @@ type zvDU struct {
 }
 
 func (d *zvDU) Subscribe(c device.Client, name string) { d.clients[name] = c }
-func (d *zvDU) Unsubscribe(device.Client, string)       {}
-func (d *zvDU) Start() error                            { return nil }
+func (d *zvDU) Unsubscribe(device.Client, string)      {}
+func (d *zvDU) Start() error                           { return nil }
 
 // ---------------------------------------------------------------------------
 // world
@@ -138,12 +155,12 @@ const (
 
 // zvNbr is a simulated neighbouring IS on one of our circuits.
 type zvNbr struct {
-	Name  string
-	Ifa   string
-	Sys   types.SystemID
-	MAC   ethernet.MACAddr
-	IP    uint32
-	Circ  uint32 // its extended local circuit ID
+	Name string
+	Ifa  string
+	Sys  types.SystemID
+	MAC  ethernet.MACAddr
+	IP   uint32
+	Circ uint32 // its extended local circuit ID
 }
 
 var (
@@ -227,6 +244,18 @@ func (w *zvIsisWorld) link(name string, up bool) int {
 	return i
 }
 
+// linksUp brings the links of all given interfaces up the way a device server
+// does for devices that exist at start-up: every interface first learns its
+// device (reported down), then the links come up one by one.
+func (w *zvIsisWorld) linksUp(names ...string) {
+	for _, n := range names {
+		w.link(n, false)
+	}
+	for _, n := range names {
+		w.link(n, true)
+	}
+}
+
 // zvIsAbort recognises the scheduler's private unwinding panic (teardown), which must be passed on.
 func zvIsAbort(e any) bool {
 	return strings.Contains(fmt.Sprintf("%T", e), "abortSentinel")
@@ -259,11 +288,11 @@ func zvFrameBytes(pduType uint8, body packet.Serializable) []byte {
 
 // three-way TLV variants of a received hello
 const (
-	zvTLVListsUs     = "lists-us"       // neighbour system ID = ours, neighbour circuit = our circuit
-	zvTLVWrongCirc   = "wrong-circuit"  // lists us with a different extended circuit ID
-	zvTLVOtherSys    = "other-system"   // lists a third system
-	zvTLVNoNeighbor  = "no-neighbor"    // 5 byte form, adjacency state Down
-	zvTLVAbsent      = "tlv-absent"     // no three-way adjacency TLV at all
+	zvTLVListsUs    = "lists-us"      // neighbour system ID = ours, neighbour circuit = our circuit
+	zvTLVWrongCirc  = "wrong-circuit" // lists us with a different extended circuit ID
+	zvTLVOtherSys   = "other-system"  // lists a third system
+	zvTLVNoNeighbor = "no-neighbor"   // 5 byte form, adjacency state Down
+	zvTLVAbsent     = "tlv-absent"    // no three-way adjacency TLV at all
 )
 
 var zvTLVVariants = []string{zvTLVListsUs, zvTLVWrongCirc, zvTLVOtherSys, zvTLVNoNeighbor, zvTLVAbsent}
